@@ -1155,14 +1155,20 @@ class Canon:
             return all(self._substitutable(a, stored_attrs, multi_def) for a in e.args)
         # zero-argument accessors (`x.get_xsd_tree()`, `t.get_simple_content_extension()`): reading them again gives the same object
         if isinstance(e, ast.Call) and isinstance(e.func, ast.Attribute) and e.func.attr.startswith('get_') and not e.args and not e.keywords \
-                and e.func.attr not in ('get_children', 'get_leaves', 'get_attached_elements', 'get_required_element_names'):
+                and (e.func.attr not in ('get_children', 'get_leaves', 'get_attached_elements', 'get_required_element_names') or getattr(self, '_read_only_fn', False)):
             return self._substitutable(e.func.value, stored_attrs, multi_def)
+        # a fixed position of such a sequence, in a function that changes no structure
+        if isinstance(e, ast.Subscript) and isinstance(e.slice, ast.Constant) and isinstance(e.slice.value, int) and getattr(self, '_read_only_fn', False):
+            return self._substitutable(e.value, stored_attrs, multi_def)
         return False
 
     def _propagate_aliases(self, fn) -> bool:
         """`x = <substitutable expression>` with x bound exactly once in the function: every later use of x is that expression."""
         uses, defs = self._use_def_counts(fn)
         stored_attrs = {n.attr for n in ast.walk(fn) if isinstance(n, ast.Attribute) and isinstance(n.ctx, (ast.Store, ast.Del))}
+        MUTATORS = {'add_child', 'remove', 'replace_child', 'append', 'insert', 'pop', 'extend', 'clear', 'duplicate', 'add_element', 'add_xml_element', '_add_duplication_parent'}
+        self._read_only_fn = not any(isinstance(n, ast.Call) and isinstance(n.func, ast.Attribute) and n.func.attr in MUTATORS for n in ast.walk(fn)) and \
+            not any(isinstance(n, ast.Subscript) and isinstance(n.ctx, (ast.Store, ast.Del)) for n in ast.walk(fn))
         # attributes written through list / dict edits of `x.attr` do not rebind x.attr itself
         multi_def = {k for k, v in defs.items() if v > 1}
         nested_scopes = [n for n in ast.walk(fn) if isinstance(n, (ast.FunctionDef, ast.Lambda)) and n is not fn]
